@@ -678,6 +678,80 @@ fn replay_from_iter(s: &mut Summary, c: &Value, embs: &[Emb]) {
     }
 }
 
+/// spec/ResBuilder.tla: a resource builder driven through a sequence of inherit() / blocks() calls, then finalized - the
+/// bare builders, and the ones inside a certificate under construction (TbsCert::build_*_resource_blocks, set_*_inherit).
+fn replay_builder(s: &mut Summary, c: &Value, embs: &[Emb]) {
+    use rpki::repository::resources::{AsResourcesBuilder, IpResourcesBuilder};
+    let top = c["top"].as_u64().unwrap();
+    let calls: Vec<Option<Vec<(u64, u64)>>> = c["calls"].as_array().unwrap().iter()
+        .map(|x| if x[0] == "inherit" { None } else { Some(model_blocks(&x[1])) }).collect();
+    let want = [(c["exp"]["c"] == "inherit", model_blocks(&c["exp"]["blocks"])), (c["exp_tbs"]["c"] == "inherit", model_blocks(&c["exp_tbs"]["blocks"]))];
+    for e in embs {
+        let mut cx = Ctx { s, case: c, emb: e, top };
+        // Ok(None): inherited; Ok(Some(set)): blocks
+        let bare = g(|| -> Option<Set> {
+            match e.fam {
+                Fam::As => {
+                    let mut b = AsResourcesBuilder::new();
+                    for call in &calls {
+                        match call {
+                            None => b.inherit(),
+                            Some(bs) => b.blocks(|x| for &m in bs { x.push(as_block(e.block(m), false)) }),
+                        }
+                    }
+                    let r = b.finalize();
+                    if r.is_inherited() { None } else { Some(Set::As(r.to_blocks().unwrap())) }
+                }
+                fam => {
+                    let mut b = IpResourcesBuilder::new();
+                    for call in &calls {
+                        match call {
+                            None => b.inherit(),
+                            Some(bs) => b.blocks(|x| for &m in bs { x.push(ip_block(e.block(m), false)) }),
+                        }
+                    }
+                    let r = b.finalize();
+                    if r.is_inherited() { None } else { Some(Set::Ip(r.to_blocks().unwrap(), fam)) }
+                }
+            }
+        });
+        let in_cert = g(|| -> Option<Set> {
+            let mut t = crate::pki::blank_tbs();
+            for call in &calls {
+                match (e.fam, call) {
+                    (Fam::As, None) => t.set_as_resources_inherit(),
+                    (Fam::V4, None) => t.set_v4_resources_inherit(),
+                    (Fam::V6, None) => t.set_v6_resources_inherit(),
+                    (Fam::As, Some(bs)) => t.build_as_resource_blocks(|x| for &m in bs { x.push(as_block(e.block(m), false)) }),
+                    (Fam::V4, Some(bs)) => t.build_v4_resource_blocks(|x| for &m in bs { x.push(ip_block(e.block(m), false)) }),
+                    (Fam::V6, Some(bs)) => t.build_v6_resource_blocks(|x| for &m in bs { x.push(ip_block(e.block(m), false)) }),
+                }
+            }
+            match e.fam {
+                Fam::As => if t.as_resources().is_inherited() { None } else { Some(Set::As(t.as_resources().to_blocks().unwrap())) },
+                Fam::V4 => if t.v4_resources().is_inherited() { None } else { Some(Set::Ip(t.v4_resources().to_blocks().unwrap(), Fam::V4)) },
+                Fam::V6 => if t.v6_resources().is_inherited() { None } else { Some(Set::Ip(t.v6_resources().to_blocks().unwrap(), Fam::V6)) },
+            }
+        });
+        for (k, (route, got)) in [("builder", bare), ("builder:tbs", in_cert)].into_iter().enumerate() {
+            let (want_inherit, exp) = (want[k].0, want[k].1.clone());
+            match got {
+                Err(m) => cx.bad(&format!("{route}:panic"), m),
+                Ok(None) => if !want_inherit { cx.bad(&format!("{route}:inherit"), format!("finished as inherited, specification says blocks {exp:?}")) },
+                Ok(Some(set)) => {
+                    if want_inherit {
+                        cx.bad(&format!("{route}:inherit"), "finished with blocks, specification says inherited".into());
+                    } else if route == "builder" || !calls.is_empty() {
+                        cx.expect_set(route, Ok(set), &exp);
+                    }
+                }
+            }
+        }
+        let key = format!("bld:{}:{}", c["calls"], e.name);
+        cx.s.eval(if calls.len() >= 2 { Some(&key) } else { None });
+    }
+}
+
 fn replay_pair(s: &mut Summary, c: &Value, embs: &[Emb]) {
     let top = c["top"].as_u64().unwrap();
     let a = model_blocks(&c["a"]);
@@ -972,6 +1046,11 @@ pub fn replay(args: &[String]) {
                 let top = c["top"].as_u64().unwrap();
                 let embs = embs_cache.entry(top).or_insert_with(|| embeddings(top)).clone();
                 replay_pair(&mut s, c, &embs);
+            }
+            "builder" => {
+                let top = c["top"].as_u64().unwrap();
+                let embs = embs_cache.entry(top).or_insert_with(|| embeddings(top)).clone();
+                replay_builder(&mut s, c, &embs);
             }
             "prefixes" => replay_prefixes(&mut s, c),
             "inverted" => {
